@@ -279,6 +279,16 @@ def Tree.hasOnStack (s : Tree) (n : Name) : Bool := s.stack.any (·.isHtml n)
 def Tree.removeFromStack (s : Tree) (id : Nat) : Tree :=
   { s with stack := s.stack.filter (·.id != id) }
 
+/-- "pop all the nodes from the bottom of the stack of open elements, from the current node up to, but
+not including, the root html element" (§13.2.6.4.7, `frameset`) -/
+def Tree.popToRoot (s : Tree) : Tree := { s with stack := s.stack.drop (s.stack.length - 1) }
+
+/-- push an existing element (§13.2.6.4.6: "push the node pointed to by the head element pointer") -/
+def Tree.pushEl (s : Tree) (e : El) : Tree := { s with stack := e :: s.stack }
+
+/-- replace the stack by `st` (a suffix of it: the foreign-content end tag walk of §13.2.6.5) -/
+def Tree.setStack (s : Tree) (st : List El) : Tree := { s with stack := st }
+
 /-- pop elements until one satisfying `p` has been popped (everything, if there is none) -/
 def popUntil (p : El → Bool) : List El → List El
   | [] => []
